@@ -393,6 +393,63 @@ package rewriter
 //@        && (forall j: Int :: 0 <= j && j < len(n.Body.List) ==> forStmt.Body.List[j + 1] == n.Body.List[j])
 //@   modifies r.symCnt
 
+// pass 1 callback: the iterator constructor is chosen by the kind of the operand's (underlying) type, the operand itself is the
+// constructor's only argument (evaluated once, before the loop), and nothing but range statements is touched (C04).
+//@ extern (types.Type).Underlying(t) (u)
+//@   ensures u == typeUnderlying(t)
+//@ extern (*types.Basic).Info(b) (i)
+//@   ensures i == basicInfo(b)
+//@ pred IsStringT(t types.Type) := isa(typeUnderlying(t), types.Basic) && bitand(basicInfo(ptr(typeUnderlying(t))), types.IsString) != 0
+//@ pred IsIntegerT(t types.Type) := isa(typeUnderlying(t), types.Basic) && bitand(basicInfo(ptr(typeUnderlying(t))), types.IsString) == 0
+//@        && bitand(basicInfo(ptr(typeUnderlying(t))), types.IsInteger) != 0
+//@ pred IsKindT(t types.Type, k Int) := (k == 1 && isa(typeUnderlying(t), types.Array)) || (k == 2 && isa(typeUnderlying(t), types.Slice))
+//@        || (k == 3 && isa(typeUnderlying(t), types.Map)) || (k == 4 && isa(typeUnderlying(t), types.Chan))
+//@ pred RangeLowerable(t types.Type) := IsStringT(t) || IsIntegerT(t) || isa(typeUnderlying(t), types.Array) || isa(typeUnderlying(t), types.Slice)
+//@        || isa(typeUnderlying(t), types.Map) || isa(typeUnderlying(t), types.Chan) || isa(typeUnderlying(t), types.Signature)
+//@ pred IterInitC(s ast.Node, ctor string) := isa(s, AssignStmt) && !isnil(s) && as(s, AssignStmt).Tok == token.DEFINE
+//@        && len(as(s, AssignStmt).Lhs) == 1 && len(as(s, AssignStmt).Rhs) == 1 && isa(as(s, AssignStmt).Rhs[0], CallExpr) && !isnil(as(s, AssignStmt).Rhs[0])
+//@        && RefersTo(as(as(s, AssignStmt).Rhs[0], CallExpr).Fun, ctor) && len(as(as(s, AssignStmt).Rhs[0], CallExpr).Args) == 1
+//@ pred IterInit(s ast.Node, ctor string, arg ast.Expr) := IterInitC(s, ctor) && as(as(s, AssignStmt).Rhs[0], CallExpr).Args[0] == arg
+//@ pred IterLoop(f ast.Node, init ast.Node) := isa(f, ForStmt) && !isnil(f) && isnil(as(f, ForStmt).Init) && isnil(as(f, ForStmt).Post)
+//@        && IsCallOfMethod(as(f, ForStmt).Cond, as(init, AssignStmt).Lhs[0], cstMoveNext)
+//@ pred FullSlice(e ast.Expr) := isa(e, SliceExpr) && !isnil(e) && isnil(as(e, SliceExpr).Low)
+//@        && isnil(as(e, SliceExpr).High) && isnil(as(e, SliceExpr).Max) && !as(e, SliceExpr).Slice3
+
+//@ closure yieldRewriter.rewriteRanges#0 (c) (ok)
+//@   reveal wf-ast
+//@   captured-inv r != nil
+//@   requires c != nil && YRCtx(r)
+//@   requires isa(cursorNode(c), RangeStmt) ==> !isnil(cursorNode(c)) && as(cursorNode(c), RangeStmt).Body != nil
+//@        && WfExpr(as(cursorNode(c), RangeStmt).Key) && WfExpr(as(cursorNode(c), RangeStmt).Value)
+//@   -- range-over-func is not implemented: the compiler stops with a diagnostic
+//@   panics-only-if isa(cursorNode(c), RangeStmt) && isa(typeUnderlying(typeOfExpr(as(cursorNode(c), RangeStmt).X)), types.Signature)
+//@   ensures[descend] ok
+//@   ensures[only-ranges] !isa(cursorNode(c), RangeStmt) ==> W == old(W)
+//@   ensures[other-operands-untouched] isa(cursorNode(c), RangeStmt) && !RangeLowerable(typeOfExpr(as(cursorNode(c), RangeStmt).X)) ==> W == old(W)
+//@   -- every lowering: `it := seq.New<Kind>Iter(arg)` inserted before, the statement replaced by `for it.MoveNext() { … }`
+//@   ensures[lowered] isa(cursorNode(c), RangeStmt) && RangeLowerable(typeOfExpr(as(cursorNode(c), RangeStmt).X))
+//@        ==> insBase(replBase(W)) == old(W) && IterLoop(lastReplaced(W), lastInserted(replBase(W)))
+//@   ensures[string] isa(cursorNode(c), RangeStmt) && IsStringT(typeOfExpr(as(cursorNode(c), RangeStmt).X))
+//@        ==> IterInit(lastInserted(replBase(W)), cstNewStringIter, as(cursorNode(c), RangeStmt).X)
+//@   ensures[integer] isa(cursorNode(c), RangeStmt) && IsIntegerT(typeOfExpr(as(cursorNode(c), RangeStmt).X))
+//@        ==> IterInit(lastInserted(replBase(W)), cstNewIntegerIter, as(cursorNode(c), RangeStmt).X)
+//@   ensures[slice] isa(cursorNode(c), RangeStmt) && IsKindT(typeOfExpr(as(cursorNode(c), RangeStmt).X), 2)
+//@        ==> IterInit(lastInserted(replBase(W)), cstNewSliceIter, as(cursorNode(c), RangeStmt).X)
+//@   ensures[map] isa(cursorNode(c), RangeStmt) && IsKindT(typeOfExpr(as(cursorNode(c), RangeStmt).X), 3)
+//@        ==> IterInit(lastInserted(replBase(W)), cstNewMapIter, as(cursorNode(c), RangeStmt).X)
+//@   ensures[chan] isa(cursorNode(c), RangeStmt) && IsKindT(typeOfExpr(as(cursorNode(c), RangeStmt).X), 4)
+//@        ==> IterInit(lastInserted(replBase(W)), cstNewChanIter, as(cursorNode(c), RangeStmt).X)
+//@   -- arrays: the slice iterator over a full slice expression (the element type cannot be inferred from an array)
+//@   ensures[array] isa(cursorNode(c), RangeStmt) && IsKindT(typeOfExpr(as(cursorNode(c), RangeStmt).X), 1)
+//@        ==> IterInitC(lastInserted(replBase(W)), cstNewSliceIter) && FullSlice(as(as(lastInserted(replBase(W)), AssignStmt).Rhs[0], CallExpr).Args[0])
+//@   ensures[array-operand] isa(cursorNode(c), RangeStmt) && IsKindT(typeOfExpr(as(cursorNode(c), RangeStmt).X), 1) && Ignored(as(cursorNode(c), RangeStmt).Value)
+//@        ==> as(as(as(lastInserted(replBase(W)), AssignStmt).Rhs[0], CallExpr).Args[0], SliceExpr).X == as(cursorNode(c), RangeStmt).X
+//@   -- D10: Go ranges over a *copy* of an array value when the element variable is used (spec, "For statements with range
+//@   -- clause"); slicing the operand itself aliases it, so writes to the array during the loop become visible.
+//@   ensures[array-copy] isa(cursorNode(c), RangeStmt) && IsKindT(typeOfExpr(as(cursorNode(c), RangeStmt).X), 1) && !Ignored(as(cursorNode(c), RangeStmt).Value)
+//@        ==> !(as(as(as(lastInserted(replBase(W)), AssignStmt).Rhs[0], CallExpr).Args[0], SliceExpr).X == as(cursorNode(c), RangeStmt).X)
+//@   modifies W, r.symCnt
+
 // ---------------------------------------------------------------- rewrite.go: yield recognition, consumer range loops (C12, C06, C05)
 
 //@ extern (*loader.Pkg).Callee(pkg, call) (o)
@@ -469,6 +526,8 @@ package rewriter
 
 //@ pred YRCtx(r *yieldRewriter) := r.rewriter != nil && r.yieldAst != nil && YAOK(r.yieldAst) && r.yieldAst.callNormal != nil
 //@ pred AllTrivial(b *block) := forall j: Int :: 0 <= j && j < BLen(b) ==> BKind(b, j) == kindTrival
+//@ -- nothing in the block was lowered to a combinator call (an implicit `return seq.Normal()` of an if branch is bookkeeping)
+//@ pred AllPlain(b *block) := forall j: Int :: 0 <= j && j < BLen(b) ==> BKind(b, j) == kindTrival || BKind(b, j) == kindNormal
 //@ pred ATBL(b *block) := forall j: Int :: 0 <= j && j < BLen(b) - 1 ==> BKind(b, j) == kindTrival
 //@ pred Shape(b *block) := (forall j: Int :: 0 <= j && j < BLen(b) - 2 ==> BKind(b, j) == kindTrival)
 //@        && (BLen(b) >= 2 ==> BKind(b, BLen(b) - 1) == kindNormal || BKind(b, BLen(b) - 2) == kindTrival)
@@ -566,6 +625,10 @@ package rewriter
 //@   ensures[pushed] BlockInv(children) && ATBL(children) && BLen(children) == old(BLen(children)) + 1 && !BFrozen(children)
 //@        && (BKind(children, BLen(children) - 1) == kindTrival || BKind(children, BLen(children) - 1) == kindIf)
 //@        && BOwner(children) == old(BOwner(children))
+//@   -- native code stays native (C17, compile side): an if statement none of whose branches was lowered is pushed as it is, so a
+//@   -- loop without yields is never handed to seq.For (whose non-yielding iterations nest Go frames)
+//@   ensures[local:native-kept] isnil(stmt.Else) && AllPlain(body) ==> BKind(children, BLen(children) - 1) == kindTrival && BStmt(children, BLen(children) - 1) == stmt
+//@   ensures[local:native-kept-else] AllPlain(body) && AllPlain(els) ==> BKind(children, BLen(children) - 1) == kindTrival && BStmt(children, BLen(children) - 1) == stmt
 //@   modifies BLen(children), BKLen(children), BStmt(children), BKind(children), BChecked(children), AST
 
 //@ func (r *yieldRewriter) rewriteSwitchStmt(stmt, init, x, body, pos, children) (res)
@@ -601,6 +664,9 @@ package rewriter
 //@   -- appended to the body); a `continue` delivered to that Combine skips its second half, so this is exact only when no
 //@   -- continue targets the loop.
 //@   ensures[local:lowering-S1] !trivalPost ==> !LoopBodyHasContinue(stmt)
+//@   -- native code stays native (C17, compile side): a loop without yields is pushed as the native statement it is
+//@   ensures[local:native-kept] !HasYield(old(stmt.Init)) && !HasYield(old(stmt.Post)) && AllPlain(body)
+//@        ==> res == children && BKind(children, BLen(children) - 1) == kindTrival && BStmt(children, BLen(children) - 1) == stmt
 //@   ensures[local:body-closed] BFrozen(res) && BKind(res, BLen(res) - 1) == kindFor ==> EndsOK(body)
 //@   ensures[local:post-closed] EndsOK(postBlock)
 //@   modifies BLen(children), BKLen(children), BStmt(children), BKind(children), BChecked(children), BFrozen(children), AST
@@ -613,9 +679,11 @@ package rewriter
 //@   ensures n == cursorNode(c) && existing(n)
 //@ extern (*astutil.Cursor).Replace(c, n)
 //@   ensures W == cursorReplace(c, n, old(W))      -- an edit of the tree under traversal, observable through the ghost world
+//@   ensures lastReplaced(W) == n && replBase(W) == old(W)      -- projections of the (free) constructor
 //@   modifies W
 //@ extern (*astutil.Cursor).InsertBefore(c, n)
 //@   ensures W == cursorInsert(c, n, old(W))
+//@   ensures lastInserted(W) == n && insBase(W) == old(W)
 //@   modifies W
 //@ extern log.Println(a)
 //@   ensures true
